@@ -72,6 +72,7 @@ func (r Requiredness) String() string {
 
 type Field struct {
 	F       int
+	Name    string // name of the Go struct field
 	ID      uint16
 	Type    *Type
 	Opts    Options
@@ -264,6 +265,7 @@ func DoResolveFields(vt reflect.Type) ([]Field, error) {
 		// add to result
 		ret = append(ret, Field{
 			F:       int(sf.Offset),
+			Name:    sf.Name,
 			ID:      uint16(id),
 			Type:    pt,
 			Opts:    fv,
